@@ -35,6 +35,7 @@ fixed = [
  ("F32", "C20", "1fac018", "sql_rel.join(it_rel_holding_a_user_defined_RowFilter) with no transfer allowed: the foreign operand was conformed before the engine check; NotImplementedError instead of EngineError"),
  ("F33", "C18", "c284e2b", "UserRowFilter applied to leaf.without_duplicates() in an iteration engine: execute() evaluated the target, then apply_custom_unary_operation() evaluated it again - the deduplication consumed the leaf twice in one execute()"),
  ("F34", "C17", "1a0aad5", "conform() of the hand-built tree Projection(all columns) over S.sorted([d]).with_only_columns({a}).without_duplicates(): RelationalAlgebraError 'will not preserve row order' for a projection that removes nothing, while the factories accept the same operation sequence (follow-up of the F7 repair)"),
+ ("F35", "C08", "179267e", "UserMarker(S.sorted([...])).join(T) in the SQL engine: conform() replaced the user marker by a new Select around the sorted Select, which hid the un-sliced sort from the binary-operation check; the join was accepted and process() raised 'will not preserve row order'; also C11"),
  ("F27", "C08", "149b8d5", "identity_in_sql.join(rel_in_iteration) accepted: Select marker around an iteration-engine relation; process() AssertionError in Select.reapply; also C20 (engine mismatch not rejected), C14"),
  ("F26", "C14", "8ebe476", "sql_rel.transferred_to(sql) returned a new Select around sql_rel (not the relation itself), burying an un-sliced sort; found through C08 (order-loss error raised only by process())"),
 ]
